@@ -2,7 +2,7 @@
 from sa.core import rule, prop_info
 from sa.lib import *  # noqa: F401,F403
 from sa.lib import (in_lock, attr_stores, func_calls, origins, compare_ops, handler_type_names, local_assigns,
-                    contains_raise)
+                    contains_raise, enclosing_tries)
 from sa.model import AnchorMissing, names_in
 from sa.typestate import forward_paths, sdict, sfreeze
 from sa import roles
@@ -373,3 +373,45 @@ def deadline_checked_every_cycle(ctx):
                       'a cycle of the receive loop (data received, but no end_of_line yet) never looks at the deadline: a device '
                       'that keeps sending bytes without the end_of_line blocks the caller - and the communicator lock - forever, '
                       'and the buffer grows without bound', f)
+
+
+@rule('C16.R5b', min_instances=2)
+def flush_empties_the_buffer_on_every_path(ctx):
+    """every flush_recv implementation returns the buffered bytes AND clears the receive buffer on every path"""
+    m = ctx.m
+    n = 0
+    for q in m.subclasses(ASYN):
+        f = m.classes[q].methods.get('flush_recv')
+        if f is None:
+            continue
+        n += 1
+        ctx.analysed(f)
+        cfg = CFG(f.node, m, f.module)
+        stores = [i for t, v, s in attr_stores(f.node) if t.attr == '_rxbuffer' and isinstance(v, ast.Constant) and v.value == b'' for i in cfg.node_of(s)]
+        ok = bool(stores) and cfg.all_paths_pass([cfg.entry], [cfg.exit], stores, exc=False)
+        ctx.check(ok, f'{f.qualname}:buffer cleared on every path', f.node, "self._rxbuffer = b'' on every normal path",
+                  'a path through flush_recv returns without clearing the receive buffer (e.g. when nothing else is pending on the socket): stale '
+                  'bytes stay buffered and are returned as the reply of the next command', f)
+    if n < 2:
+        raise AnchorMissing('flush_recv implementations not found')
+
+
+@rule('C16.R4b', min_instances=4)
+def connection_calls_are_guarded(ctx):
+    """in communicate every call on the connection that can detect a closed connection (flush_recv, send, readline,
+    readbytes) lies in a try with a ConnectionClosed handler (which closes the connection, R4)"""
+    m = ctx.m
+    n = 0
+    for q in _comm_classes(m):
+        f = m.classes[q].methods.get('communicate')
+        if f is None:
+            continue
+        for c in _conn_calls(f.node, {'flush_recv', 'send', 'readline', 'readbytes'}):
+            n += 1
+            ctx.analysed(f)
+            ok = any(part == 'body' and any('ConnectionClosed' in (handler_type_names(h) or []) for h in t.handlers) for t, part in enclosing_tries(c))
+            ctx.check(ok, f'{f.qualname}:{call_attr(c)} guarded by a ConnectionClosed handler', c, 'inside try ... except ConnectionClosed',
+                      f'`{src(c)}` is outside the try that handles ConnectionClosed: a disconnect detected there does not close the connection - '
+                      'is_connected stays true and no reconnect is ever attempted', f)
+    if n < 4:
+        raise AnchorMissing('connection calls in communicate not found')
